@@ -16,5 +16,6 @@ CONSTANTS
   CrashSet <- AllNodes
   StopSet <- AllNodes
   Sync = FALSE
+  TrackAge = FALSE
 INVARIANTS TypeOK
 PROPERTIES EventuallyAgreed HashCatchesUp
